@@ -24,7 +24,7 @@ LEVEL_TEXT = ("Multi-file, irregular frame layouts with a time-dependent sheared
 LEVEL_NOTE = "Negation and the interpolation arithmetic are sign-symmetric in IEEE arithmetic, but increments accumulate in a different order in the two runs (float32 fields): tolerance 1e-5 cells relative to O(1) positions is used for float32 storage, 1e-9 for float64 storage."
 RULE = ("case = (frame layout, file partition, start/stop positions, release table, mode, scheme). Non-trivial: at least two release times and a frame hand-over inside the run; "
         "distinct by parameters.")
-MANDATORY = ["release_time_between_steps", "records_compared", "multi_file", "several_release_times", "continuous", "discrete", "scheme_EF", "scheme_RK2", "scheme_RK4", "start_between_frames",
+MANDATORY = ["split_output", "particle_variable_files_compared", "release_time_between_steps", "records_compared", "multi_file", "several_release_times", "continuous", "discrete", "scheme_EF", "scheme_RK2", "scheme_RK4", "start_between_frames",
              "clock_readings_checked", "release_times_checked"]
 ASSUMPTIONS = ["frames on the model time grid; release times sorted in simulation order"]
 TIMEOUT = {"quick": 900, "thorough": 3400}
@@ -79,7 +79,7 @@ def build(case: dict[str, Any]):
             rid += 1
             rows.append(dict(step=s, frac=frac, X=float(np.round(rng.uniform(6, imax - 7), 3)), Y=float(np.round(rng.uniform(5, jmax - 6), 3)), Z=float(np.round(rng.uniform(0, 80), 2)), rid=rid))
     return dict(dt=dt, P=P, files=files, S=S, E=E, ns=ns, imax=imax, jmax=jmax, N=N, dx=dx, pattern=pattern, amp=amp, prof=prof, store=store, scheme=scheme,
-                cont=cont, freq=freq, rows=rows)
+                cont=cont, freq=freq, rows=rows, numrec=int(rng.choice([0, 2, 3])))
 
 
 def scenarios(b: dict[str, Any]):
@@ -96,8 +96,8 @@ def scenarios(b: dict[str, Any]):
     srt = sorted(b["rows"], key=lambda r: r["step"] + r.get("frac", 0.0))
     rrev = [[str(tadd(start, -int(round((r["step"] + r.get("frac", 0.0)) * dt)))), r["X"], r["Y"], r["Z"], r["rid"]] for r in srt]
     rfwd = [[str(tadd(start, int(round((r["step"] + r.get("frac", 0.0)) * dt)))), r["X"], r["Y"], r["Z"], r["rid"]] for r in srt]
-    out = dict(period=dt, instance=dict(pid="i4", X="f8", Y="f8", Z="f8", rid="i4"))
-    st = dict(instance_variables=dict(rid="int"))
+    out = dict(period=dt, instance=dict(pid="i4", X="f8", Y="f8", Z="f8", rid="i4"), particle=dict(release_time="f8"), numrec=b.get("numrec", 0))
+    st = dict(instance_variables=dict(rid="int"), particle_variables=dict(release_time="time"))
 
     def rel(rows):
         d = dict(columns=cols, rows=rows, header=True)
@@ -139,8 +139,28 @@ def run_case(case: dict[str, Any], wd: Path) -> dict[str, Any]:
     if not rres.ok:
         V.append(C.viol(f"time-reversed run did not complete: {rres.exc} (the mirrored forward run did)", tb=rres.tb[-1500:], **desc))
         return C.result(V, sit, cnt, nontrivial=True, key=key, sample=desc)
-    rrec = all_records(read_outputs(rres.outputs))
-    frec = all_records(read_outputs(fres.outputs))
+    rfiles, ffiles = read_outputs(rres.outputs), read_outputs(fres.outputs)
+    rrec = all_records(rfiles)
+    frec = all_records(ffiles)
+    # same file layout and the mirrored release times in the particle variable of every file
+    sit["split_output"] = int(b.get("numrec", 0) > 0)
+    if [(f.path.name, len(f.records)) for f in rfiles] != [(f.path.name, len(f.records)) for f in ffiles]:
+        V.append(C.viol(f"output files of the reversed run {[(f.path.name, len(f.records)) for f in rfiles]} differ from those of the mirrored forward run "
+                        f"{[(f.path.name, len(f.records)) for f in ffiles]}", **desc))
+    for fr_, ff_ in zip(rfiles, ffiles):
+        a_ = np.asarray(fr_.pvars.get("release_time", []), float)
+        b_ = np.asarray(ff_.pvars.get("release_time", []), float)
+        sit["particle_variable_files_compared"] = sit.get("particle_variable_files_compared", 0) + 1
+        ref_r = np.datetime64(fr_.time_units.split("since")[1].strip(), "s")
+        ref_f = np.datetime64(ff_.time_units.split("since")[1].strip(), "s")
+        S_ = np.datetime64(start, "s")
+        # seconds before S in the reversed run == seconds after S in the forward run
+        ar = (S_ - ref_r) / np.timedelta64(1, "s") - a_
+        bf = b_ - (S_ - ref_f) / np.timedelta64(1, "s")
+        if len(ar) != len(bf) or (len(ar) and np.max(np.abs(ar - bf)) > 1e-6):
+            V.append(C.viol(f"{fr_.path.name}: release_time particle variable of the reversed run ({ar[:6].tolist()} s before S) is not the mirror of the forward run's "
+                            f"({bf[:6].tolist()} s after S)", **desc))
+            break
     if len(rrec) != len(frec):
         V.append(C.viol(f"reversed run wrote {len(rrec)} records, mirrored forward run {len(frec)}", **desc))
     tol = 1e-9 if b["store"] == "f8" else 2e-5
